@@ -46,12 +46,15 @@ pub struct Recorder {
     pub toks: Vec<Tok>,
     /// what `is_human_readable()` answers (self-describing binary formats such as CBOR or MessagePack say no)
     pub human: bool,
+    /// positions of the maps still open, and the number of keys seen in each (a map may not announce its length)
+    open: Vec<usize>,
+    counts: Vec<usize>,
 }
 pub fn to_tokens<V: Serialize>(v: &V) -> Result<Vec<Tok>, TokError> {
     to_tokens_as(v, true)
 }
 pub fn to_tokens_as<V: Serialize>(v: &V, human: bool) -> Result<Vec<Tok>, TokError> {
-    let mut r = Recorder { toks: Vec::new(), human };
+    let mut r = Recorder { toks: Vec::new(), human, open: Vec::new(), counts: Vec::new() };
     v.serialize(&mut r)?;
     Ok(r.toks)
 }
@@ -67,7 +70,7 @@ impl<'a> ser::Serializer for &'a mut Recorder {
     type SerializeTuple = ser::Impossible<(), TokError>;
     type SerializeTupleStruct = ser::Impossible<(), TokError>;
     type SerializeTupleVariant = ser::Impossible<(), TokError>;
-    type SerializeMap = ser::Impossible<(), TokError>;
+    type SerializeMap = &'a mut Recorder;
     type SerializeStruct = &'a mut Recorder;
     type SerializeStructVariant = ser::Impossible<(), TokError>;
     fn is_human_readable(&self) -> bool {
@@ -137,8 +140,13 @@ impl<'a> ser::Serializer for &'a mut Recorder {
         serialize_tuple(usize) -> Self::SerializeTuple;
         serialize_tuple_struct(&'static str, usize) -> Self::SerializeTupleStruct;
         serialize_tuple_variant(&'static str, u32, &'static str, usize) -> Self::SerializeTupleVariant;
-        serialize_map(Option<usize>) -> Self::SerializeMap;
         serialize_struct_variant(&'static str, u32, &'static str, usize) -> Self::SerializeStructVariant;
+    }
+    /// a string-keyed map is what a self-describing format shows for a struct as well: recorded as one
+    fn serialize_map(self, len: Option<usize>) -> Result<Self::SerializeMap, TokError> {
+        self.toks.push(Tok::Struct("", len.unwrap_or(usize::MAX)));
+        self.open.push(self.toks.len() - 1);
+        Ok(self)
     }
     fn serialize_some<T: ?Sized + Serialize>(self, _: &T) -> Result<(), TokError> {
         Err(TokError("unsupported: serialize_some".into()))
@@ -155,6 +163,40 @@ impl<'a> ser::SerializeStruct for &'a mut Recorder {
         v.serialize(&mut **self)
     }
     fn end(self) -> Result<(), TokError> {
+        self.toks.push(Tok::End);
+        Ok(())
+    }
+}
+
+impl<'a> ser::SerializeMap for &'a mut Recorder {
+    type Ok = ();
+    type Error = TokError;
+    fn serialize_key<T: ?Sized + Serialize>(&mut self, key: &T) -> Result<(), TokError> {
+        // the key must be a name: recorded through the recorder itself and turned into a Field token
+        let at = self.toks.len();
+        key.serialize(&mut **self)?;
+        match (self.toks.len() == at + 1, self.toks.pop()) {
+            (true, Some(Tok::Str(k))) => {
+                self.toks.push(Tok::Field(k));
+                if let Some(&o) = self.open.last() {
+                    self.counts.resize(self.counts.len().max(o + 1), 0);
+                    self.counts[o] += 1;
+                }
+                Ok(())
+            }
+            _ => Err(TokError("a map key that is not a string".into())),
+        }
+    }
+    fn serialize_value<T: ?Sized + Serialize>(&mut self, v: &T) -> Result<(), TokError> {
+        v.serialize(&mut **self)
+    }
+    fn end(self) -> Result<(), TokError> {
+        if let Some(o) = self.open.pop() {
+            let n = self.counts.get(o).copied().unwrap_or(0);
+            if let Tok::Struct(name, _) = self.toks[o] {
+                self.toks[o] = Tok::Struct(name, n);
+            }
+        }
         self.toks.push(Tok::End);
         Ok(())
     }
@@ -259,12 +301,21 @@ impl<'de, 'a, 't: 'de> de::Deserializer<'de> for &'a mut Replayer<'t> {
     fn deserialize_string<V: Visitor<'de>>(self, v: V) -> Result<V::Value, TokError> {
         self.deserialize_str(v)
     }
+    /// as the self-describing formats do: a unit stands for None, anything else is the value itself
+    fn deserialize_option<V: Visitor<'de>>(self, v: V) -> Result<V::Value, TokError> {
+        if let Some(Tok::Unit) = self.peek() {
+            self.pos += 1;
+            v.visit_none()
+        } else {
+            v.visit_some(self)
+        }
+    }
     fn deserialize_ignored_any<V: Visitor<'de>>(self, v: V) -> Result<V::Value, TokError> {
         self.skip_value()?;
         v.visit_unit()
     }
     serde::forward_to_deserialize_any! {
-        bool i8 i16 i32 i64 u8 u16 u32 u64 f32 f64 char bytes byte_buf option unit unit_struct seq tuple tuple_struct enum
+        bool i8 i16 i32 i64 u8 u16 u32 u64 f32 f64 char bytes byte_buf unit unit_struct seq tuple tuple_struct enum
     }
 }
 struct Fields<'a, 't> {
